@@ -46,6 +46,17 @@ structure FuncSpec where
 
 abbrev Funcs := String → Option FuncSpec
 
+/-- evaluation configuration: the function table, and two switches that select *repaired* behaviour used
+    only in theorem statements (the Go code corresponds to both being `false`):
+    * `keepKeyMarks`: indexing an object keeps the key's marks (see `index`)
+    * `keepDropped`: diagnostics that Go discards (the branch of a conditional that is not taken, the
+      operand cut off by `&&` / `||`, the type probe of a splat) are kept; this never changes a value, it
+      only makes "no diagnostics" mean that no sub-evaluation failed -/
+structure Cx where
+  funcs : Funcs
+  keepKeyMarks : Bool := false
+  keepDropped : Bool := false
+
 def hasErrors (ds : List Diag) : Bool := !ds.isEmpty
 
 /-! ### helpers mirroring Go code -/
@@ -78,7 +89,7 @@ def shortCircuit (op : BinOp) (l r : Val) (ld rd : List Diag) : Option (Val × L
     else none
   | _ => none
 
-def evalBin (op : BinOp) (lo ro : Out) : Out :=
+def evalBin (keep : Bool) (op : BinOp) (lo ro : Out) : Out :=
   let (gl, ld) := lo
   let (gr, rd) := ro
   match tryConvert gl op.paramTy, tryConvert gr op.paramTy with
@@ -86,7 +97,7 @@ def evalBin (op : BinOp) (lo ro : Out) : Out :=
     let (l, lm) := l.unmark
     let (r, rm) := r.unmark
     match shortCircuit op l r ld rd with
-    | some (v, ds) => (v.withFl (lm.join rm), ds ++ unsupOnly (ld ++ rd) ds)
+    | some (v, ds) => (v.withFl (lm.join rm), if keep then ld ++ rd else ds ++ unsupOnly (ld ++ rd) ds)
     | none =>
       let ds := ld ++ rd
       if hasErrors ds then ((Val.unk Fl.none op.resultTy).withFl (lm.join rm), ds)
@@ -171,19 +182,21 @@ def evalCondCore (co to fo : Out) : Out :=
 
 /-- `ConditionalExpr.Value`.  Go drops the diagnostics of the branch not taken; the model's own
     "outside the fragment" markers are kept so that they are never lost. -/
-def evalCond (co to fo : Out) : Out :=
+def evalCond (keep : Bool) (co to fo : Out) : Out :=
   let (v, ds) := evalCondCore co to fo
-  (v, ds ++ unsupOnly (co.2 ++ to.2 ++ fo.2) ds)
+  if keep then (v, ds ++ to.2 ++ fo.2) else (v, ds ++ unsupOnly (co.2 ++ to.2 ++ fo.2) ds)
 
 /-- the elements of an iterable value as `(key, value)` pairs in iteration order -/
 def elements (v : Val) : Option (List (Val × Val)) :=
+  -- keys are fresh unmarked values; the ghost taint of the collection stays on them (they are content of it)
+  let kf : Fl := ⟨false, v.fl.g⟩
   let idx (xs : List Val) : List (Val × Val) :=
-    (List.range xs.length).zip xs |>.map fun (i, x) => (Val.num Fl.none (i : Rat), x)
+    (List.range xs.length).zip xs |>.map fun (i, x) => (Val.num kf (i : Rat), x)
   match v with
   | .list _ _ xs => some (idx xs)
   | .tuple _ xs => some (idx xs)
-  | .map _ _ kvs => some (kvs.map fun (k, x) => (Val.str Fl.none k, x))
-  | .object _ kvs => some (kvs.map fun (k, x) => (Val.str Fl.none k, x))
+  | .map _ _ kvs => some (kvs.map fun (k, x) => (Val.str kf k, x))
+  | .object _ kvs => some (kvs.map fun (k, x) => (Val.str kf k, x))
   | _ => none
 
 def canIterate (t : Ty) : Bool :=
@@ -264,7 +277,7 @@ def probeCond (o : Out) : List Diag × Fl × Bool :=
 /-! ### the evaluator -/
 
 mutual
-def eval (F : Funcs) (ρ : Env) : Expr → Out
+def eval (F : Cx) (ρ : Env) : Expr → Out
   | .lit v => (v, [])
   | .var x =>
     match ρ.lookup x with
@@ -277,11 +290,11 @@ def eval (F : Funcs) (ρ : Env) : Expr → Out
   | .index e k =>
     let (cv, cd) := eval F ρ e
     let (kv, kd) := eval F ρ k
-    let (r, ds') := index cv kv
+    let (r, ds') := index F.keepKeyMarks cv kv
     (r, cd ++ kd ++ ds')
-  | .bin op l r => evalBin op (eval F ρ l) (eval F ρ r)
+  | .bin op l r => evalBin F.keepDropped op (eval F ρ l) (eval F ρ r)
   | .un op e => evalUn op (eval F ρ e)
-  | .cond c t f => evalCond (eval F ρ c) (eval F ρ t) (eval F ρ f)
+  | .cond c t f => evalCond F.keepDropped (eval F ρ c) (eval F ρ t) (eval F ρ f)
   | .tuple es =>
     let (vs, ds) := evalList F ρ es
     (.tuple Fl.none vs, ds)
@@ -429,7 +442,7 @@ def eval (F : Funcs) (ρ : Env) : Expr → Out
           let vals := rs.map (·.1)
           let ok := rs.all fun r => !hasErrors r.2
           if upgradedUnknown then (Val.dynVal.withFl sm, ds)
-          else if !ok then ((Val.unk Fl.none resultTy.1).withFl sm, ds)
+          else if !ok then ((Val.unk Fl.none resultTy.1).withFl sm, if F.keepDropped then ds ++ resultTy.2 else ds)
           else match sv with
             | .list _ _ _ =>
               (match vals with
@@ -469,7 +482,7 @@ def eval (F : Funcs) (ρ : Env) : Expr → Out
         tjoinLoop tm xs ds tm ""
       | _ => unsupportedOut "tjoin of non-tuple"
   | .call fn args expand =>
-    match F fn with
+    match F.funcs fn with
     | none => errOut "Call to unknown function"
     | some spec =>
       -- expansion of the final argument
@@ -508,17 +521,17 @@ def eval (F : Funcs) (ρ : Env) : Expr → Out
             | .ok v => (v, ds)
             | .error (.fail _) => (Val.dynVal, ds ++ [⟨"Error in function call", []⟩])
             | .error (.unsupported w) => (Val.dynVal, ds ++ [⟨"UNSUPPORTED " ++ w, []⟩])
-def evalList (F : Funcs) (ρ : Env) : List Expr → List Val × List Diag
+def evalList (F : Cx) (ρ : Env) : List Expr → List Val × List Diag
   | [] => ([], [])
   | e :: es =>
     let (v, d) := eval F ρ e
     let (vs, ds) := evalList F ρ es
     (v :: vs, d ++ ds)
-def evalEach (F : Funcs) (ρ : Env) : List Expr → List Out
+def evalEach (F : Cx) (ρ : Env) : List Expr → List Out
   | [] => []
   | e :: es => eval F ρ e :: evalEach F ρ es
 /-- the loop of `ObjectConsExpr.Value`; returns the accumulated state and `known` -/
-def evalItems (F : Funcs) (ρ : Env) : List (Expr × Expr) → ForSt × Bool
+def evalItems (F : Cx) (ρ : Env) : List (Expr × Expr) → ForSt × Bool
   | [] => ({}, true)
   | (ke, ve) :: rest =>
     let (k, kd) := eval F ρ ke
